@@ -13,7 +13,7 @@ the limb list); `Val f a` says `a` is a well-formed value of format `f` (`n` lim
 `toInt f a` is its two's-complement reading, `f.N = w·n` the width.
 
 * Part 1: the limb routines (`eval_add_n`, `eval_subtract_n`, `eval_multiply_n_by_n_to_lo_part` generic and
-  unrolled, `eval_multiply_1d`, `eval_divide_by_single_limb`, `shl`, `shr`, `negate`, `compare_ranges`,
+  unrolled, `eval_multiply_n_by_n_to_2n`, `eval_multiply_kara_n_by_n_to_2n`, `eval_multiply_1d`, `eval_divide_by_single_limb`, `shl`, `shr`, `negate`, `compare_ranges`,
   bitwise, `eval_divide_knuth`) compute the exact arithmetic they stand for, with carries.
 * Part 2: hence each operator, read as a value, equals `wrapTwos N` of the exact result, for signed and
   unsigned formats; the right-hand sides do not mention `w`.
@@ -26,23 +26,25 @@ never fails — so `div_wraps`/`mod_wraps` carry no hypothesis about the algorit
 
 Side conditions that are genuinely needed and why: the unrolled four-limb multiply needs `3 ≤ w`
 (its column sums must fit a double limb; it is instantiated for `w = 64` only) — `mul_wraps` asks
-`3 ≤ w ∨ n ≠ 4`; **`mul_wraps` also asks `n < 129`** (the schoolbook overload of `eval_mul_unary`): with 129
-limbs or more the Karatsuba overload runs, for which the property is *false* — Part 2b; decimal text needs `10 < 2^w`; conversion to a built-in type of `b` bits needs
+`3 ≤ w ∨ n ≠ 4`; decimal text needs `10 < 2^w`; conversion to a built-in type of `b` bits needs
 `b ≤ w ∨ w ∣ b` (the code's limb-ratio shortcut), true for all 8/16/32/64/128-bit types over 8/16/32/64-bit limbs.
 
 Karatsuba multiplication (`≥ 129` limbs; inside the property's 65..2048-digit range that is 8-bit limbs and
-1056..2048 bits) — Part 2b.  The routine is transcribed with its memory (`Cnl.Wide.kara`, validated byte for byte
-against the real routine's result *and* scratch arrays).  `karatsuba_refuted` (kernel-checked, from a
-`wide_integer<1568, uint8_t>` witness) shows the full statement `KaratsubaCorrect` is false: when halving the
-limb count reaches an odd count above the schoolbook cutoff 48 (`karaOddSplit`), a limb of each operand is dropped
-and two limbs of the uninitialised result array are read (`karatsuba_odd_level_ignores_top_limbs`: for all
-widths and operands, such a level does not look at the top limb of either operand); `karatsuba_indeterminate` shows the product then
-depends on what those arrays held.  Defect class `C10.karatsuba_odd_split` = `karaDefect n`
-(`karaDefect_instantiable`: exactly the limb counts 196, 204, …, 252 = 4·m, m odd, 49 ≤ m ≤ 63, i.e. 8-bit-limb
-widths 1568, 1632, 1696, 1760, 1824, 1888, 1952, 2016).  **Not proved**: `KaratsubaCorrectEvenSplit` (the
-Karatsuba overload is exact whenever no odd split occurs) is kept as a definition; for those instantiations the
-evidence is the differential harness (transcription ≡ implementation limb for limb, implementation ≡ exact
-arithmetic) and kernel-evaluated instances, which are tests, not theorems.
+1056..2048 bits) is **covered in full** — Part 2b.  The routine is transcribed with its memory (`Cnl.Wide.kara`,
+validated byte for byte against the real routine's result *and* scratch arrays) and proved exact for every limb
+width, every limb count and every initial content of its uninitialised arrays: `schoolbook_full_product`
+(`eval_multiply_n_by_n_to_2n`), `kara_one_level_correct` (one split, for any correct routine one level down:
+`(a₁Bʰ + a₀)(b₁Bʰ + b₀) = a₁b₁B²ʰ + (a₁b₁ + a₀b₀ ± |a₁−a₀||b₀−b₁|)Bʰ + a₀b₀` with the carry/borrow ripples as
+arithmetic modulo `B²ⁿ`), `karatsuba_routine_correct` (induction on the recursion), `karatsuba_correct`
+(`KaratsubaCorrect`, the operator) — so `mul_wraps`, `binOp_spec` and `limb_size_independent` carry **no** hypothesis
+about the limb count.  This is the routine as repaired in /repo 38967ec (schoolbook for odd limb counts).  The
+routine before that commit is kept as `karaOrig`/`opMulWithOrig`: `karatsuba_unrepaired_refuted` (kernel-checked,
+from a `wide_integer<1568, uint8_t>` witness) shows it violated the property — when halving the limb count reached
+an odd count above the cutoff 48 (`karaOddSplit`) a limb of each operand was dropped
+(`karatsuba_unrepaired_odd_level_ignores_top_limbs`, all widths and operands) and two limbs of the uninitialised
+result array were read (`karatsuba_unrepaired_indeterminate`: the product depended on what the arrays held).
+Former defect class `C10.karatsuba_odd_split` = `karaDefect n` (`karaDefect_instantiable`: exactly the limb counts
+196, 204, …, 252 = 4·m, m odd, 49 ≤ m ≤ 63, i.e. 8-bit-limb widths 1568, 1632, 1696, 1760, 1824, 1888, 1952, 2016).
 
 Not covered here (see the report): conversion to/from floating point, `operator~`
 (does not compile for multi-limb `wide_integer`).
@@ -70,6 +72,34 @@ theorem subtract_with_borrow {w : Nat} {a b : Limbs} {bin : Bool} (hw : 1 ≤ w)
 theorem multiply_low_part {w : Nat} {a b : Limbs} (ha : WF w a) (hb : WF w b) (hl : a.length = b.length) :
     toNat w (mulLo w a b) = (toNat w a * toNat w b) % 2^(w * a.length) :=
   (Mul.mulLo_spec ha hb hl).1
+
+/-- `eval_multiply_n_by_n_to_2n`: the full `2n`-limb schoolbook product (the leaves of Karatsuba) -/
+theorem schoolbook_full_product {w : Nat} {a b : Limbs} (ha : WF w a) (hb : WF w b) (hl : a.length = b.length) :
+    toNat w (mul2n w a b) = toNat w a * toNat w b ∧ (mul2n w a b).length = 2 * a.length :=
+  ⟨(Kara.mul2n_spec ha hb hl).1, (Kara.mul2n_spec ha hb hl).2.2⟩
+
+/-- one Karatsuba level (`n` even): if the routine one level down (`rec`, on `n/2` limbs) is correct, the split
+`a = a₁·Bʰ + a₀`, `b = b₁·Bʰ + b₀` with the three sub-products, the two middle additions, the signed third one
+and all carry/borrow ripples leaves the exact `2n`-limb product in `r` — whatever `r` and the scratch `t` held -/
+theorem kara_one_level_correct {w : Nat} (hw : 1 ≤ w) {rec : Nat → Limbs → Limbs → Limbs → Limbs → Limbs × Limbs} {n : Nat}
+    (hev : n % 2 = 0) (hrec : Kara.RecOK w rec (n / 2)) {a0 a1 b0 b1 r t : Limbs}
+    (ha0 : WF w a0) (ha1 : WF w a1) (hb0 : WF w b0) (hb1 : WF w b1)
+    (la0 : a0.length = n / 2) (la1 : a1.length = n / 2) (lb0 : b0.length = n / 2) (lb1 : b1.length = n / 2)
+    (hr : r.length = 2 * n) (ht : 4 * n ≤ t.length) :
+    toNat w (karaSplit w rec n a0 a1 b0 b1 r t).1
+      = (toNat w a0 + 2^(w * (n / 2)) * toNat w a1) * (toNat w b0 + 2^(w * (n / 2)) * toNat w b1)
+    ∧ WF w (karaSplit w rec n a0 a1 b0 b1 r t).1 ∧ (karaSplit w rec n a0 a1 b0 b1 r t).1.length = 2 * n :=
+  let ⟨h1, h2, h3, _⟩ := Kara.karaSplit_spec hw hev hrec ha0 ha1 hb0 hb1 la0 la1 lb0 lb1 hr ht
+  ⟨h1, h2, h3⟩
+
+/-- `eval_multiply_kara_n_by_n_to_2n` (as repaired: only even counts are split): the exact `2n`-limb product for
+every limb width, every limb count `n`, any contents of the result array `r` (2n limbs) and the scratch `t` (≥ 4n) -/
+theorem karatsuba_routine_correct {w : Nat} (hw : 1 ≤ w) {n : Nat} {a b r t : Limbs} (ha : WF w a) (hb : WF w b)
+    (la : a.length = n) (lb : b.length = n) (hr : r.length = 2 * n) (ht : 4 * n ≤ t.length) :
+    toNat w (kara w n n a b r t).1 = toNat w a * toNat w b ∧ WF w (kara w n n a b r t).1
+    ∧ (kara w n n a b r t).1.length = 2 * n :=
+  let ⟨h1, h2, h3, _⟩ := Kara.kara_spec hw n n (Nat.le_refl n) a b r t ha hb la lb hr ht
+  ⟨h1, h2, h3⟩
 
 /-- the unrolled four-limb `eval_multiply_n_by_n_to_lo_part` -/
 theorem multiply_low_part_unrolled4 {w a0 a1 a2 a3 b0 b1 b2 b3 : Nat} (hw : 3 ≤ w)
@@ -145,18 +175,16 @@ theorem sub_wraps {f : Fmt} {a b : Limbs} (hw : 1 ≤ f.w) (hn : 1 ≤ f.n) (ha 
     toInt f (opSub f.w a b) = wrapTwos f.N f.signed (toInt f a - toInt f b) :=
   (Arith.sub_toInt hw hn ha hb).1
 
-/-- `operator*` with fewer than 129 limbs (`hk`: the schoolbook overload of `eval_mul_unary`).  Not `_partial` by
-omission of a proof: for `129 ≤ n` the statement is false (`karatsuba_refuted`). -/
-theorem mul_wraps {f : Fmt} {a b : Limbs} (hw : 1 ≤ f.w) (hn : 1 ≤ f.n) (h4 : 3 ≤ f.w ∨ f.n ≠ 4) (hk : f.n < karaThreshold)
-    (ha : Val f a) (hb : Val f b) :
+/-- `operator*`, every limb count: schoolbook (unrolled for four limbs) below 129 limbs, Karatsuba from 129 limbs -/
+theorem mul_wraps {f : Fmt} {a b : Limbs} (hw : 1 ≤ f.w) (hn : 1 ≤ f.n) (h4 : 3 ≤ f.w ∨ f.n ≠ 4) (ha : Val f a) (hb : Val f b) :
     toInt f (opMul f.w a b) = wrapTwos f.N f.signed (toInt f a * toInt f b) :=
-  (Arith.mul_toInt hw hn h4 hk ha hb).1
+  (Arith.mul_toInt hw hn h4 ha hb).1
 
-/-- the same whatever the (unused) local arrays hold -/
+/-- the same whatever the local arrays of the Karatsuba overload hold on entry (the C++ does not initialise them) -/
 theorem mul_wraps_any_init {f : Fmt} {a b : Limbs} (init : Limbs × Limbs) (hw : 1 ≤ f.w) (hn : 1 ≤ f.n) (h4 : 3 ≤ f.w ∨ f.n ≠ 4)
-    (hk : f.n < karaThreshold) (ha : Val f a) (hb : Val f b) :
+    (ha : Val f a) (hb : Val f b) :
     toInt f (opMulWith f.w init a b) = wrapTwos f.N f.signed (toInt f a * toInt f b) :=
-  (Arith.mulWith_toInt init hw hn h4 hk ha hb).1
+  (Arith.mulWith_toInt init hw hn h4 ha hb).1
 
 /-- the Knuth routine meets what the sign-handling wrappers of `/` and `%` need -/
 theorem knuth_correct (f : Fmt) (hw : 1 ≤ f.w) :
@@ -215,13 +243,12 @@ theorem shr_floor {f : Fmt} {a : Limbs} {k : Int} {sgn : Bool} (hw : 1 ≤ f.w) 
 
 /-- all binary operators of `wide_integer op wide_integer` at once, against the spec's `specBin` -/
 theorem binOp_spec {f : Fmt} {a b : Limbs} (op : BinOp) (hop : op ≠ .shl ∧ op ≠ .shr) (hw : 1 ≤ f.w) (hn : 1 ≤ f.n)
-    (h4 : 3 ≤ f.w ∨ f.n ≠ 4) (hk : op = .mul → f.n < karaThreshold) (ha : Val f a) (hb : Val f b)
-    (hdiv : op = .div ∨ op = .mod → toInt f b ≠ 0) :
+    (h4 : 3 ≤ f.w ∨ f.n ≠ 4) (ha : Val f a) (hb : Val f b) (hdiv : op = .div ∨ op = .mod → toInt f b ≠ 0) :
     ∃ r, binOp f op a b = .ok r ∧ some (toInt f r) = specBin f.N f.signed op (toInt f a) (toInt f b) := by
   cases op with
   | add => exact ⟨_, rfl, by simp [specBin, exactBin, add_wraps hw hn ha hb]⟩
   | sub => exact ⟨_, rfl, by simp [specBin, exactBin, sub_wraps hw hn ha hb]⟩
-  | mul => exact ⟨_, rfl, by simp [specBin, exactBin, mul_wraps hw hn h4 (hk rfl) ha hb]⟩
+  | mul => exact ⟨_, rfl, by simp [specBin, exactBin, mul_wraps hw hn h4 ha hb]⟩
   | div =>
     have hb0 := hdiv (Or.inl rfl)
     obtain ⟨o, h, hq⟩ := div_wraps hw hn ha hb hb0
@@ -247,6 +274,13 @@ arrays hold -/
 def KaratsubaCorrect : Prop :=
   ∀ (f : Fmt) (init : Limbs × Limbs) (a b : Limbs), 1 ≤ f.w → karaThreshold ≤ f.n → Val f a → Val f b →
     toInt f (opMulWith f.w init a b) = wrapTwos f.N f.signed (toInt f a * toInt f b)
+
+/-- proved: the Karatsuba overload is exact for every limb width, limb count and initial array contents -/
+theorem karatsuba_correct : KaratsubaCorrect := by
+  intro f init a b hw hk ha hb
+  have hn : 1 ≤ f.n := by unfold karaThreshold at hk; omega
+  have h4 : 3 ≤ f.w ∨ f.n ≠ 4 := by right; unfold karaThreshold at hk; omega
+  exact (Arith.mulWith_toInt init hw hn h4 ha hb).1
 
 /-- the same statement about the routine before 38967ec (false: `karatsuba_unrepaired_refuted`) -/
 def KaratsubaCorrectUnrepaired : Prop :=
@@ -325,7 +359,7 @@ theorem karaDefect_needs_threshold (n : Nat) (h : n < karaThreshold) : karaDefec
   unfold karaDefect
   simp [Nat.not_le.mpr h]
 
--- tests of the REPAIRED routine (kernel-evaluated instances)
+-- instances of the REPAIRED routine evaluated by the kernel (non-vacuity of `karatsuba_correct`; the theorem covers them)
 -- wide_integer<1056, uint8_t>, 132 limbs (132 → 66 → 33 odd: schoolbook): (0xFE…FE)², carries in every column
 example : toNat 8 (opMul 8 (List.replicate 132 0xFE) (List.replicate 132 0xFE))
     = (toNat 8 (List.replicate 132 0xFE) * toNat 8 (List.replicate 132 0xFE)) % 2^(8 * 132) := by decide +kernel
@@ -340,19 +374,18 @@ example : toNat 8 (opMulWith 8 (List.replicate 512 0xA5, List.replicate 1024 0x5
 /-! ## Part 3 — results do not depend on how the value is split into limbs -/
 
 /-- two formats of the same width and signedness (say 8 limbs of 32 bits and 4 limbs of 64 bits), operands
-denoting the same integers: every binary operator yields the same integer (`*`: both splits below the Karatsuba
-threshold — `limb_split_dependent_product` shows the clause fails across it) -/
+denoting the same integers: every binary operator yields the same integer — also across the Karatsuba threshold
+(say 256 limbs of 8 bits and 64 limbs of 32 bits) -/
 theorem limb_size_independent {f g : Fmt} {a b a' b' r r' : Limbs} (op : BinOp) (hop : op ≠ .shl ∧ op ≠ .shr)
     (hfw : 1 ≤ f.w) (hfn : 1 ≤ f.n) (hf4 : 3 ≤ f.w ∨ f.n ≠ 4) (hgw : 1 ≤ g.w) (hgn : 1 ≤ g.n) (hg4 : 3 ≤ g.w ∨ g.n ≠ 4)
-    (hfk : op = .mul → f.n < karaThreshold) (hgk : op = .mul → g.n < karaThreshold)
     (hN : f.N = g.N) (hs : f.signed = g.signed)
     (ha : Val f a) (hb : Val f b) (ha' : Val g a') (hb' : Val g b')
     (hva : toInt f a = toInt g a') (hvb : toInt f b = toInt g b')
     (hdiv : op = .div ∨ op = .mod → toInt f b ≠ 0)
     (hr : binOp f op a b = .ok r) (hr' : binOp g op a' b' = .ok r') :
     toInt f r = toInt g r' := by
-  obtain ⟨r1, e1, s1⟩ := binOp_spec op hop hfw hfn hf4 hfk ha hb hdiv
-  obtain ⟨r2, e2, s2⟩ := binOp_spec op hop hgw hgn hg4 hgk ha' hb' (fun h => hvb ▸ hdiv h)
+  obtain ⟨r1, e1, s1⟩ := binOp_spec op hop hfw hfn hf4 ha hb hdiv
+  obtain ⟨r2, e2, s2⟩ := binOp_spec op hop hgw hgn hg4 ha' hb' (fun h => hvb ▸ hdiv h)
   rw [hr] at e1; rw [hr'] at e2
   cases e1; cases e2
   rw [hN, hs, hva, hvb] at s1
